@@ -6,6 +6,7 @@ import Kopf.Lemmas.C18_Total
 import Kopf.Lemmas.C18_Spec
 import Kopf.Lemmas.C18_Misc
 import Kopf.Lemmas.C18_Fns
+import Kopf.Lemmas.C18_Select
 namespace Kopf.C18
 open Kopf Kopf.J
 
@@ -75,7 +76,7 @@ def OpMatches (h : Handler) (c : Cause) : Prop :=
   "*" ∈ managedRuleOps h ∨ c.operation = none ∨ ∃ op, c.operation = some op ∧ op ∈ managedRuleOps h
 
 theorem matchingOperation_iff (h : Handler) (c : Cause) : matchingOperation h c = true ↔ OpMatches h c := by
-  rcases h with ⟨hid, hr, hops, hsub⟩
+  rcases h with ⟨hid, hr, hops, hsub, hfn⟩
   rcases c with ⟨cr, cw, cop, csub⟩
   unfold OpMatches
   cases hops with
@@ -101,7 +102,7 @@ theorem gate_spec (h : Handler) (c : Cause) (m : Bool) :
       (h.subresource = some "*" ∨ h.subresource = c.subresource) ∧
       m = true := by
   rw [← explicitlyForDeletion_iff, ← matchingOperation_iff]
-  rcases h with ⟨hid, hr, hops, hsub⟩
+  rcases h with ⟨hid, hr, hops, hsub, hfn⟩
   rcases c with ⟨cr, cw, cop, csub⟩
   simp only [gate, matchesSubresource, Bool.and_eq_true, Bool.or_eq_true, beq_iff_eq, bne_iff_ne, ne_eq]
   constructor
@@ -120,16 +121,51 @@ theorem gate_spec (h : Handler) (c : Cause) (m : Bool) :
       · exact Or.inl (Or.inr hd)
     · exact Or.inl (Or.inl hm)
 
-/-- exactly the registered handlers passing the gate are selected, in registry order -/
-theorem select_spec (hs : List (Handler × Bool)) (c : Cause) (h : Handler) :
-    (h ∈ select hs c ↔ ∃ m, (h, m) ∈ hs ∧ gate h c m = true) ∧
-    (select hs c).Sublist (hs.map (·.1)) := by
-  constructor
-  · simp only [select, List.mem_map, List.mem_filter]
-    constructor
-    · rintro ⟨⟨h', m⟩, ⟨hmem, hg⟩, rfl⟩; exact ⟨m, hmem, hg⟩
-    · rintro ⟨m, hmem, hg⟩; exact ⟨(h, m), ⟨hmem, hg⟩, rfl⟩
-  · exact List.Sublist.map _ List.filter_sublist
+/-- "Only handlers matching … run": every selected handler is a registered one that passes the gate;
+    the selection keeps the registry order; and no function/id pair is selected twice. -/
+theorem select_spec (hs : List (Handler × Bool)) (c : Cause) :
+    (∀ h, h ∈ select hs c → ∃ m, (h, m) ∈ hs ∧ gate h c m = true) ∧
+    (select hs c).Sublist (hs.map (·.1)) ∧
+    ((select hs c).map Handler.key).Nodup := by
+  refine ⟨?_, ?_, dedupAux_nodup _ []⟩
+  · intro h hsel
+    have := (dedupAux_mem _ [] h hsel).1
+    simp only [List.mem_map, List.mem_filter] at this
+    obtain ⟨⟨h', m⟩, ⟨hmem, hg⟩, rfl⟩ := this
+    exact ⟨m, hmem, hg⟩
+  · exact (dedupAux_sublist _ []).trans (List.Sublist.map _ List.filter_sublist)
+
+/-- …and conversely (stacked decorators: ONE function registered several times under the same id
+    with different criteria): if ANY registration of a function passes the gate, that function is
+    selected — through a registration that itself passes the gate — exactly once. Deduplication
+    happens after the selection criteria, never before. -/
+theorem stacked_registration_selected (hs : List (Handler × Bool)) (c : Cause) (h : Handler) (m : Bool)
+    (hmem : (h, m) ∈ hs) (hg : gate h c m = true) :
+    (∃ h', h' ∈ select hs c ∧ h'.key = h.key ∧ ∃ m', (h', m') ∈ hs ∧ gate h' c m' = true) ∧
+    ((select hs c).filter (fun x => x.key == h.key)).length = 1 := by
+  have hin : h ∈ (hs.filter (fun hm => gate hm.1 c hm.2)).map (·.1) :=
+    List.mem_map.2 ⟨(h, m), List.mem_filter.2 ⟨hmem, hg⟩, rfl⟩
+  obtain ⟨y, hy, hyk⟩ := dedupAux_cover _ [] h hin (by simp)
+  have hy' : y ∈ select hs c := hy
+  refine ⟨⟨y, hy', hyk, (select_spec hs c).1 y hy'⟩, ?_⟩
+  -- exactly once: keys are pairwise different and one of them is `h.key`
+  have hnd := (select_spec hs c).2.2
+  generalize select hs c = sel at hy' hnd
+  induction sel with
+  | nil => simp at hy'
+  | cons x xs ih =>
+    simp only [List.map_cons, List.nodup_cons] at hnd
+    by_cases hx : x.key = h.key
+    · have hnone : xs.filter (fun z => z.key == h.key) = [] := by
+        apply List.filter_eq_nil_iff.2
+        intro z hz hzk
+        exact hnd.1 (List.mem_map.2 ⟨z, hz, by rw [hx]; simpa using hzk⟩)
+      simp [hx, hnone]
+    · have : y ∈ xs := by
+        rcases List.mem_cons.1 hy' with e | e
+        · exact absurd (e ▸ hyk) hx
+        · exact e
+      simp [hx, ih this hnd.2]
 
 /-- "Only handlers matching the … operation … run": a selected handler's declared operations admit
     the request's operation (before cc4195a this was false: finding C18-F3, now a regression case in
@@ -137,7 +173,7 @@ theorem select_spec (hs : List (Handler × Bool)) (c : Cause) (h : Handler) :
     sends to the apiserver (`managedRuleOps`, tied to `build_webhooks`). -/
 theorem gate_enforces_operations (hs : List (Handler × Bool)) (c : Cause) (h : Handler)
     (hsel : h ∈ select hs c) : OpMatches h c := by
-  obtain ⟨m, _, hg⟩ := ((select_spec hs c h).1).1 hsel
+  obtain ⟨m, _, hg⟩ := (select_spec hs c).1 h hsel
   exact ((gate_spec h c m).1 hg).2.2.1
 
 /-- in particular: declared `["CREATE"]`, request `UPDATE` ⇒ not selected, with or without a hint -/
@@ -160,7 +196,7 @@ theorem restricted_handler_skipped (h : Handler) (c : Cause) (m : Bool) (ops : L
 /-- with a webhook-id hint, at most the handler carrying that id runs -/
 theorem hinted_only_that_handler (hs : List (Handler × Bool)) (c : Cause) (id : String)
     (hw : c.webhook = some id) (h : Handler) (hsel : h ∈ select hs c) : h.id = id := by
-  obtain ⟨m, _, hg⟩ := ((select_spec hs c h).1).1 hsel
+  obtain ⟨m, _, hg⟩ := (select_spec hs c).1 h hsel
   have := ((gate_spec h c m).1 hg).2.1
   rw [hw] at this
   rcases this with h0 | h1
@@ -287,9 +323,12 @@ theorem returned_patch_fidelity {Op : Type} (applyOps : J → List Op → Option
           rw [hops] at h1
           simp [appliedObject, buildResponse, h1]
 
-/-- allowed ⇔ no SELECTED handler raised (selection and response combined) -/
+/-- allowed ⇔ no function with a MATCHING registration raised (selection and response combined).
+    `hact`: what an invocation does depends on the function and the id, not on which of the stacked
+    registrations of that function let it in. -/
 theorem serve_allowed_iff {Op : Type} (fromDiff : J → J → List Op) (hs : List (Handler × Bool)) (c : Cause)
-    (act : Handler → Act) (b : J) (p : List (String × J)) (fns : List Fn) (resp : Response Op)
+    (act : Handler → Act) (hact : ∀ h h', h.key = h'.key → act h = act h')
+    (b : J) (p : List (String × J)) (fns : List Fn) (resp : Response Op)
     (hserve : serve fromDiff hs c act b p fns = .ok resp) :
     resp.allowed = true ↔ ∀ h m, (h, m) ∈ hs → gate h c m = true → (act h).error = none := by
   unfold serve at hserve
@@ -301,10 +340,12 @@ theorem serve_allowed_iff {Op : Type} (fromDiff : J → J → List Op) (hs : Lis
     rw [allowed_iff]
     constructor
     · intro h1 h m hmem hg
-      exact h1 _ (List.mem_map.2 ⟨h, ((select_spec hs c h).1).2 ⟨m, hmem, hg⟩, rfl⟩)
+      obtain ⟨⟨h', hsel, hk, _⟩, _⟩ := stacked_registration_selected hs c h m hmem hg
+      rw [← hact h' h hk]
+      exact h1 _ (List.mem_map.2 ⟨h', hsel, rfl⟩)
     · intro h1 o ho
       obtain ⟨h, hsel, rfl⟩ := List.mem_map.1 ho
-      obtain ⟨m, hmem, hg⟩ := ((select_spec hs c h).1).1 hsel
+      obtain ⟨m, hmem, hg⟩ := (select_spec hs c).1 h hsel
       exact h1 h m hmem hg
 
 /-- the warnings of the response are those the selected handlers issued, handler by handler in
@@ -347,8 +388,8 @@ example : (buildResponse [none, some ⟨.temporary, none, "t", "T"⟩, some ⟨.
     = ⟨false, some ⟨"A()", 403⟩, some ["w1", "w2"], some [1], some "JSONPatch"⟩ := by
   simp [buildResponse, errorsOf, pickMin, prio, message, statusCode]
 
-example : gate ⟨"h", .mutating, some ["DELETE"], some "*"⟩ ⟨none, some "h", some "DELETE", some "status"⟩ true = true := by decide
-example : gate ⟨"h", .mutating, some ["CREATE", "DELETE"], none⟩ ⟨none, none, some "DELETE", none⟩ true = false := by decide
+example : gate ⟨"h", .mutating, some ["DELETE"], some "*", "f"⟩ ⟨none, some "h", some "DELETE", some "status"⟩ true = true := by decide
+example : gate ⟨"h", .mutating, some ["CREATE", "DELETE"], none, "f"⟩ ⟨none, none, some "DELETE", none⟩ true = false := by decide
 
 -- `fidelity_fns`: both paths return on a body with finalizers, a patch that edits metadata and
 -- empties a parent, and the functions remove-then-add:
@@ -372,16 +413,24 @@ example : ∃ r, appliedObject (fun a ops => some (ops.getLastD a))
       = some r ∧ LeafEq r (.obj [("spec", .obj [("a", .num 2)])]) :=
   returned_patch_fidelity (Op := J) (fun a ops => some (ops.getLastD a)) (fun _ b => [b])
     (fun _ _ => rfl) (fun _ => rfl)
-    [(⟨"m", .mutating, none, none⟩, true), (⟨"v", .validating, some ["CREATE"], none⟩, false)]
+    [(⟨"m", .mutating, none, none, "f"⟩, true), (⟨"v", .validating, some ["CREATE"], none, "f"⟩, false)]
     ⟨none, none, some "UPDATE", none⟩ (fun _ => ⟨[], some ⟨.admission, some 403, "no", "A('no')"⟩⟩)
     _ _ rfl [("spec", .obj [("a", .num 2)])] [] _ rfl rfl
 
 -- the former C18-F3 witness is now rejected by the gate; a matching operation, `*`, no declared
 -- operations and an absent operation pass:
-example : gate ⟨"h", .validating, some ["CREATE"], none⟩ ⟨none, none, some "UPDATE", none⟩ true = false := by decide
-example : gate ⟨"h", .validating, some ["CREATE", "UPDATE"], none⟩ ⟨none, none, some "UPDATE", none⟩ true = true := by decide
-example : gate ⟨"h", .validating, some ["*"], none⟩ ⟨none, none, some "CONNECT", none⟩ true = true := by decide
-example : gate ⟨"h", .validating, some ["CREATE"], none⟩ ⟨none, none, none, none⟩ true = true := by decide
-example : gate ⟨"h", .validating, some [], none⟩ ⟨none, none, some "UPDATE", none⟩ true = true := by decide
+example : gate ⟨"h", .validating, some ["CREATE"], none, "f"⟩ ⟨none, none, some "UPDATE", none⟩ true = false := by decide
+example : gate ⟨"h", .validating, some ["CREATE", "UPDATE"], none, "f"⟩ ⟨none, none, some "UPDATE", none⟩ true = true := by decide
+example : gate ⟨"h", .validating, some ["*"], none, "f"⟩ ⟨none, none, some "CONNECT", none⟩ true = true := by decide
+example : gate ⟨"h", .validating, some ["CREATE"], none, "f"⟩ ⟨none, none, none, none⟩ true = true := by decide
+example : gate ⟨"h", .validating, some [], none, "f"⟩ ⟨none, none, some "UPDATE", none⟩ true = true := by decide
+
+-- stacked decorators: one function `f` registered under the same id for CREATE and for UPDATE (and a
+-- third time, matching as well): an UPDATE review selects it once, through the first MATCHING registration
+example : select
+    [(⟨"fn", .validating, some ["CREATE"], none, "f"⟩, true),
+     (⟨"fn", .validating, some ["UPDATE"], none, "f"⟩, true),
+     (⟨"fn", .validating, none, some "*", "f"⟩, true)]
+    ⟨none, none, some "UPDATE", none⟩ = [⟨"fn", .validating, some ["UPDATE"], none, "f"⟩] := by decide
 
 end Kopf.C18
